@@ -12,3 +12,21 @@ STOP = ['nla::cssp', 'nla::ntlm', 'nla::rc4', 'codec::', 'core::event::BitmapEve
 
 def run(ctx):
     run_hpa(ctx, ENTRIES, STOP, {'functions': 150, 'sites': 85}, 'active-session')
+    # ---- R06.2 every array field of a message constructor is readable: the PDU parsers (PDU::from_control, DataPDU::from_pdu, ..) read into the
+    # constructor called with default arguments, and Array::read asks the array's element factory for a fresh element before it looks at the
+    # stream; an array built with Array::from_trame has the factory `panic!("Try reading a non empty array")`.  Such an array may be *passed in*
+    # by a writer, it must not be the constructor's own default.
+    import dsl
+    from common import calls_in
+    n_arr = 0
+    for fn in dsl.constructors(ctx.prog):
+        for sh, fl in dsl.returned_components(ctx.prog, fn):
+            for f in fl:
+                if f.kind == 'Array':
+                    n_arr += 1
+                    bad = [c[1] for c in calls_in(f.expr) if c[0] in ('call', 'via') and c[1].endswith('Array::<T>::from_trame')]
+                    ctx.check(not bad, 'R06.2', 'array_default:%s:%s' % (fn, f.key),
+                              '%s.%s defaults to Array::new(factory): the template the parsers read into can produce elements' % (fn.rsplit('::', 1)[-1], f.key),
+                              sh.body.where(), '%s builds the default of array field %s with Array::from_trame: reading that PDU kind from the server calls the '
+                              'panicking element factory (a server-triggered panic, whatever the element count)' % (fn, f.key))
+    ctx.floor('R06.2', 'array fields of message constructors', n_arr, 4)
